@@ -1,0 +1,6 @@
+//go:build !verif
+
+package mavl
+
+// verifSaveGate is a no-op in production builds (see verif_hooks.go, build tag "verif").
+func verifSaveGate(t *Tree) {}
